@@ -674,7 +674,7 @@ def run(ctx):
         raise MachineryError("vacuous: no history with a detached HEAD")
 
     # ---------------------------------------------------------------- 2. replay against the real binary
-    budget = int(os.environ.get("VERIF_C20_MAX", "0")) or (12000 if thorough else 1300)
+    budget = int(os.environ.get("VERIF_C20_MAX", "0")) or (12000 if thorough else 750)
     order = list(range(len(cases)))
     if len(order) > budget:
         # always replayed: short histories and the long simulated ones.  Next in line: histories whose last
